@@ -6,7 +6,8 @@ A *case* is {kind, data, items, src}; a *strategy* is a dict
 
   {"s": "seq",         "cuts": [...]}                    num_threads = 0
   {"s": "threads",     "cuts": [...], "n": n}            num_threads = n on every transform
-  {"s": "shards",      "cuts": [...], "k": k, "via": "make" | "source"}
+  {"s": "shards",      "cuts": [...], "k": k, "via": "make" | "source",
+                       "states_as": "list" | "gen" | "iter", "strict": bool, "runner": "default" | "aggregate"}
   {"s": "interleaved", "cuts": [...]}                    orchestrate.run_pipeline_interleaved, no workers
   {"s": "sched",       "cuts": [...], "n": n, "chooser": "random"|"pct", "seed": k}
                        num_threads = n, the real code driven through a seeded schedule by the deterministic
@@ -85,6 +86,29 @@ class Collect:
     return list(self.items)
 
 
+# the deterministic scheduler that drives the strategy being run (harness/sched/shim.py), if any
+_SCHED = None
+
+
+class Rmw(Collect):
+  """Collect with a NON-ATOMIC read-modify-write `add` (like any real metric's update, made wide enough to
+  observe): between the read and the write it is pre-empted — a scheduler yield point under the deterministic
+  scheduler, a 1 ms sleep on a pool thread.  Correct code never runs two updates of one accumulator at once,
+  so the result is that of Collect; two overlapping updates lose one."""
+
+  def add(self, x):
+    import threading
+    import time
+    old = self.items
+    new = [int(v) for v in _a(x).reshape(-1)]
+    s = _SCHED
+    if s is not None and s.current() is not None:
+      s.step('agg-rmw')
+    elif threading.current_thread() is not threading.main_thread():
+      time.sleep(0.001)
+    self.items = old + new
+
+
 def split_transforms(items, cuts):
   """[(attach, [item,..]), ..]: the first transform is 'chain'."""
   ts = [['chain', [items[0]]]] if items else []
@@ -142,7 +166,8 @@ def add_item(t, it, idx, case, mods):
   np, transform, io, orchestrate, rolling_stats, base = mods
   dict_kind = case['kind'] == 'dict'
   if 'agg' in it:
-    fn = rolling_stats.MeanAndVariance().as_agg_fn() if it['agg'] == 'moments' else base.as_agg_fn(Collect)
+    fn = (rolling_stats.MeanAndVariance().as_agg_fn() if it['agg'] == 'moments'
+          else base.as_agg_fn(Rmw if it['agg'] == 'rmw' else Collect))
     kw = dict(fn=fn, output_keys=f'A{idx}')
     if dict_kind:
       kw['input_keys'] = 'x'
@@ -252,10 +277,15 @@ def run_strategy(case, st, mods=None):
         outs += o
         if ret is not None and ret.agg_state is not None:
           states.append(ret.agg_state)
-      runner = p.make()
+      # the merging runner as the orchestration builds it (mode=AGGREGATE) or the plain one; the states handed
+      # over as a list, a one-shot generator (what sharded_pipelines_as_iterator passes) or an iterator
+      runner = p.make(mode=transform.RunnerMode.AGGREGATE) if st.get('runner') == 'aggregate' and p.make().has_agg else p.make()
       aggs = {}
       if runner.has_agg:
-        merged = runner.merge_states(states)
+        how = st.get('states_as', 'list')
+        arg = states if how == 'list' else (iter(states) if how == 'iter' else (x for x in states))
+        kw = dict(strict_states_cnt=len(states)) if st.get('strict') else {}
+        merged = runner.merge_states(arg, **kw)
         aggs = canon_aggs(runner.get_result(merged), np)
       return dict(err=None, out=[canon_elem(e, case, np) for e in outs], aggs=aggs, nstates=len(states))
     if s == 'sched':
@@ -297,9 +327,14 @@ def run_scheduled(case, st, p, mods):
     except Exception as e:  # pylint: disable=broad-except
       box['obs'] = dict(err=err_kind(e), phase='run', msg=(str(e) or repr(e.__cause__))[:160])
 
-  with shim.patched(sched, [iter_utils]):
-    sched.spawn('consumer', consumer)
-    outcome = sched.run()
+  global _SCHED
+  _SCHED = sched
+  try:
+    with shim.patched(sched, [iter_utils]):
+      sched.spawn('consumer', consumer)
+      outcome = sched.run()
+  finally:
+    _SCHED = None
   if outcome != 'done':
     return dict(err='Deadlock' if outcome == 'deadlock' else 'Scheduler:' + str(outcome), phase='run',
                 msg=f'blocked={sched.blocked} steps={sched.steps}')
